@@ -100,6 +100,11 @@ def build(m, index_pad=pad16):
     if m["version"] == 5:
         for bt in bone_tables:
             runtime += struct.pack("<64H", *(list(bt) + [0] * (64 - len(bt)))) + struct.pack("<B3x", len(bt))
+    else:
+        # version 6, laid out the way the library reads it (not verifiable offline: regression-only): a skipped word, the
+        # count, the indices, and a padding word when the count is even
+        for bt in bone_tables:
+            runtime += struct.pack("<HH", 0, len(bt)) + struct.pack("<%dH" % len(bt), *bt) + (b"\0\0" if len(bt) % 2 == 0 else b"")
     for off, (start, count) in zip(shape_offs, shape_structs):
         runtime += struct.pack("<I3H3H", off, *start, *count)
     for sm in shape_meshes:
@@ -146,9 +151,11 @@ def build(m, index_pad=pad16):
         istart = len(data)
         nidx = 0
         for mesh in lod["meshes"]:
-            assert mesh["start_index"] == nidx, "meshes of a LOD must carry consecutive index ranges"
+            # index ranges follow each other in mesh order, possibly with gaps (game files align some starts)
+            assert mesh["start_index"] >= nidx, "index ranges of a LOD's meshes must not overlap"
+            data += b"\0\0" * (mesh["start_index"] - nidx)
             data += struct.pack("<%dH" % len(mesh["indices"]), *mesh["indices"])
-            nidx += len(mesh["indices"])
+            nidx = mesh["start_index"] + len(mesh["indices"])
         ilen = index_pad(2 * nidx)
         data += b"\0" * (ilen - 2 * nidx)
         voff[li], vsize[li] = data_offset + vstart, vlen
